@@ -754,6 +754,37 @@ func (p *prog) opMultipart(big bool) {
 		}
 		parts = append(parts, randBytes(r, sz))
 	}
+	// the last part may be taken from an object that exists (UploadPartCopy, whole or a range of it) - by
+	// preference one that was itself stored by a multipart upload: its ETag is not the MD5 of its content
+	copySrc, copyRange := "", ""
+	if r.Intn(3) == 0 {
+		var cands, mp []string
+		for _, kk := range p.keys {
+			if so := p.model[kk.key]; so != nil && len(so.body) > 0 && len(so.body) <= 6*mib {
+				cands = append(cands, kk.key)
+				if strings.HasPrefix(so.enc, "multipart-") {
+					mp = append(mp, kk.key)
+				}
+			}
+		}
+		if len(mp) > 0 && r.Intn(4) != 0 {
+			cands = mp
+		}
+		if len(cands) > 0 {
+			copySrc = cands[r.Intn(len(cands))]
+			sb := p.model[copySrc].body
+			switch r.Intn(4) {
+			case 0: // a range that covers everything
+				copyRange = fmt.Sprintf("bytes=0-%d", len(sb)-1)
+			case 1:
+				a := r.Intn(len(sb))
+				b := a + r.Intn(len(sb)-a)
+				copyRange = fmt.Sprintf("bytes=%d-%d", a, b)
+				sb = sb[a : b+1]
+			}
+			parts[nparts-1] = sb
+		}
+	}
 	body := bytes.Join(parts, nil)
 	hs := genHdrSet(r)
 	dropCE(r, hs)
@@ -761,7 +792,15 @@ func (p *prog) opMultipart(big bool) {
 	applyHdrs(o, hs)
 	// optional full-object checksum declaration
 	algo := ""
-	if r.Intn(4) == 0 {
+	if copySrc != "" {
+		o.enc += "+part-copied"
+		if strings.HasPrefix(p.model[copySrc].enc, "multipart-") {
+			o.enc += "-from-multipart"
+		}
+		if copyRange != "" {
+			o.enc += "-range"
+		}
+	} else if r.Intn(4) == 0 {
 		algo = []string{"crc32", "crc32c", "crc64nvme"}[r.Intn(3)]
 		o.enc += "+full-" + algo
 	}
@@ -798,6 +837,34 @@ func (p *prog) opMultipart(big bool) {
 			}
 		}
 		g := r.Intn(2)
+		if copySrc != "" && i == nparts-1 {
+			h := s3c.H{{"X-Amz-Copy-Source", s3c.URIEncode(p.bucket+"/"+copySrc, false)}}
+			if copyRange != "" {
+				h = append(h, [2]string{"X-Amz-Copy-Source-Range", copyRange})
+			}
+			p.logOp("  part %d copied from %q %s @gw%d", nums[i], clip(copySrc, 60), copyRange, g)
+			pr := p.w.client(g).Do(&s3c.Req{Method: "PUT", Path: s3c.ObjPath(p.bucket, k.key), Query: s3c.Q("partNumber", strconv.Itoa(nums[i]), "uploadId", init.UploadId), Header: h})
+			c.Eval(1)
+			if p.classify("upload-part-copy", g, pr) != acked {
+				p.w.client(g).AbortMPU(p.bucket, k.key, init.UploadId)
+				return
+			}
+			var cp struct {
+				ETag string
+				Code string
+			}
+			xml.Unmarshal(pr.Body, &cp)
+			if cp.Code != "" {
+				c.Observe("UploadPartCopy answered 200 with error " + cp.Code)
+				p.w.client(g).AbortMPU(p.bucket, k.key, init.UploadId)
+				return
+			}
+			if strings.Trim(cp.ETag, `"`) != s3c.MD5Hex(pb) {
+				c.Violation(p.sig("ack-part", "etag", o), p.id, p.detail(k.key, o, map[string]any{"part": nums[i], "copied_from": copySrc, "range": copyRange, "expected": s3c.MD5Hex(pb), "got": cp.ETag}))
+			}
+			done = append(done, s3c.Part{N: nums[i], ETag: cp.ETag})
+			continue
+		}
 		req := &s3c.Req{Method: "PUT", Path: s3c.ObjPath(p.bucket, k.key), Query: s3c.Q("partNumber", strconv.Itoa(nums[i]), "uploadId", init.UploadId), Body: pb}
 		how := "signed"
 		switch r.Intn(4) {
